@@ -1191,6 +1191,120 @@ Section XControl.
   Qed.
 End XControl.
 
+(** ---- whole transactions through the ante decorator ---- *)
+Section TxFacts.
+  Variable c : cfg.
+  Variable str_of : acct -> string.
+  Variable authority : string.
+  Hypothesis addr_of_empty : addr_of c EmptyString = None.
+  Hypothesis str_of_parses : forall a, addr_of c (str_of a) = Some a.
+
+  Let xrun := xrun c str_of authority.
+  Let msg_step := msg_step c str_of authority.
+  Let run_msgs := run_msgs c str_of authority.
+  Let deliver_tx := deliver_tx c str_of authority.
+
+  Definition ops_of (tx : list tmsg) : list xop := map (fun t => XBase (OMsg (fst t))) tx.
+
+  Lemma ops_of_honest tx : Forall honest (ops_of tx).
+  Proof. induction tx; constructor; simpl; auto. Qed.
+
+  Lemma run_msgs_app pre post : forall xs xs',
+    run_msgs xs (pre ++ post) = Ok xs' ->
+    exists xi, run_msgs xs pre = Ok xi /\ run_msgs xi post = Ok xs' /\ xi = xrun (ops_of pre) xs.
+  Proof.
+    induction pre as [|t r IH]; intros xs xs' H.
+    - exists xs. auto.
+    - simpl in H. unfold run_msgs in H. simpl in H. fold run_msgs in H.
+      destruct (Chain.msg_step c str_of authority xs (fst t)) as [x1 [r1|e1]] eqn:S; [|discriminate].
+      destruct (IH _ _ H) as (xi & H1 & H2 & H3). exists xi. split; [|split; [exact H2|]].
+      + unfold run_msgs. simpl. rewrite S. exact H1.
+      + rewrite H3. unfold xrun, Chain.xrun. simpl. unfold Chain.xstep.
+        unfold Chain.msg_step in S. rewrite S. reflexivity.
+  Qed.
+
+  Lemma run_msgs_is_xrun tx xs xs' : run_msgs xs tx = Ok xs' -> xs' = xrun (ops_of tx) xs.
+  Proof.
+    intros H. rewrite <- (app_nil_r tx) in H. destruct (run_msgs_app _ _ _ _ H) as (xi & _ & H2 & H3).
+    simpl in H2. inversion H2; subst. reflexivity.
+  Qed.
+
+  Lemma deliver_tx_err xs g tx xs' e : deliver_tx xs g tx = (xs', Err e) -> xs' = xs.
+  Proof.
+    unfold deliver_tx, Chain.deliver_tx.
+    destruct (negb (forallb (tvalid c xs) tx)); [intros H; inversion H; reflexivity|].
+    destruct (negb (ante_tx c str_of g tx)); [intros H; inversion H; reflexivity|].
+    destruct (Chain.run_msgs c str_of authority xs tx); intros H; inversion H; reflexivity.
+  Qed.
+
+  Lemma ante_msg_authorised g t : ante_msg c str_of g t = true -> creator_authorised c g t.
+  Proof.
+    unfold ante_msg. intros H. apply orb_true_iff in H as [H|H].
+    - unfold signed_by_creator in H. apply existsb_exists in H as (sg & Hin & E).
+      destruct (addr_of c sg) as [a|] eqn:A; [|discriminate]. apply String.eqb_eq in E.
+      exists sg, a. split; [exact Hin|]. split; [exact A|]. left. rewrite <- E. apply str_of_parses.
+    - unfold fee_granted in H. destruct (addr_of c (sender (fst t))) as [gr|] eqn:G; [|discriminate].
+      apply existsb_exists in H as (sg & Hin & E). destruct (addr_of c sg) as [ge|] eqn:A; [|discriminate].
+      apply existsb_exists in E as ([p1 p2] & Hp & E). simpl in E. apply andb_true_iff in E as [E1 E2].
+      apply Z.eqb_eq in E1, E2. subst. exists sg, ge. split; [exact Hin|]. split; [exact A|]. right. eauto.
+  Qed.
+
+  (** Only the admin, at transaction level.  In a delivered transaction EVERY message — wherever it
+      stands in the transaction — has a creator who is one of the accounts whose signature the SDK
+      verified for it, or who fee-granted one of them; and when the message is privileged, that
+      creator is the stored admin of its denom at the moment the message runs.  The whole
+      transaction is an honest history of delivered messages. *)
+  Theorem tx_only_admin_acts xs g tx xs' r :
+    deliver_tx xs g tx = (xs', Ok r) ->
+    xs' = xrun (ops_of tx) xs /\
+    forall pre t post, tx = pre ++ t :: post ->
+      creator_authorised c g t /\
+      forall d, privileged (fst t) = Some d ->
+        admin_rec (st (xrun (ops_of pre) xs)) d = Some (sender (fst t)) /\
+        exists acc, addr_of c (sender (fst t)) = Some acc.
+  Proof.
+    unfold deliver_tx, Chain.deliver_tx.
+    destruct (negb (forallb (tvalid c xs) tx)); [discriminate|].
+    destruct (negb (ante_tx c str_of g tx)) eqn:A; [discriminate|].
+    destruct (Chain.run_msgs c str_of authority xs tx) as [x1|e] eqn:R; [|discriminate].
+    intros H; inversion H; subst; clear H. split; [exact (run_msgs_is_xrun _ _ _ R)|].
+    intros pre t post ->. split.
+    - apply negb_false_iff in A. unfold ante_tx in A. rewrite forallb_forall in A.
+      apply ante_msg_authorised, A. apply in_or_app. right. left. reflexivity.
+    - intros d P. destruct (run_msgs_app _ _ _ _ R) as (xi & _ & H2 & ->).
+      unfold run_msgs in H2. simpl in H2.
+      destruct (Chain.msg_step c str_of authority (xrun (ops_of pre) xs) (fst t)) as [x2 [r2|e2]] eqn:S; [|discriminate].
+      unfold Chain.msg_step in S.
+      apply (xonly_admin_acts c str_of authority addr_of_empty str_of_parses _ _ _ _ (sender (fst t)) d S).
+      simpl. rewrite P. reflexivity.
+  Qed.
+
+  (** every transaction-level history is an honest message-level history: the invariants and the
+      accounting theorems of the extended chain carry over *)
+  Theorem trun_is_honest_history ts : forall xs, Forall (thonest) ts ->
+    exists ops, Forall honest ops /\ trun c str_of authority ts xs = xrun ops xs.
+  Proof.
+    induction ts as [|t r IH]; intros xs F; [exists []; split; [constructor|reflexivity]|].
+    inversion F as [|? ? Ht Fr]; subst.
+    assert (Hstep : exists ops1, Forall honest ops1 /\ tstep c str_of authority xs t = xrun ops1 xs).
+    { destruct t as [o|g tx]; simpl in Ht.
+      - exists [o]. split; [constructor; [exact Ht|constructor]|reflexivity].
+      - unfold tstep, tstep_out. destruct (Chain.deliver_tx c str_of authority xs g tx) as [x1 [r1|e1]] eqn:D.
+        + exists (ops_of tx). split; [apply ops_of_honest|]. exact (proj1 (tx_only_admin_acts _ _ _ _ _ D)).
+        + apply deliver_tx_err in D. subst. exists []. split; [constructor|reflexivity]. }
+    destruct Hstep as (ops1 & H1 & E1). destruct (IH (tstep c str_of authority xs t) Fr) as (ops2 & H2 & E2).
+    exists (ops1 ++ ops2). split; [apply Forall_app; auto|].
+    change (trun c str_of authority (t :: r) xs) with (trun c str_of authority r (tstep c str_of authority xs t)).
+    rewrite E2, E1. unfold xrun, Chain.xrun. rewrite fold_left_app. reflexivity.
+  Qed.
+
+  Corollary xwf_trun ts xs : Forall thonest ts -> xwf c xs -> xwf c (trun c str_of authority ts xs).
+  Proof.
+    intros F X. destruct (trun_is_honest_history ts xs F) as (ops & H & ->).
+    apply (xwf_run c str_of authority addr_of_empty str_of_parses); assumption.
+  Qed.
+End TxFacts.
+
 (** ---- non-vacuity and witnesses ---- *)
 Module XEx.
   Open Scope string_scope.
@@ -1338,4 +1452,21 @@ Module XEx.
     bal (led (fst (raw cf sblk m))) 100 "factory/alice/blk" = 7 /\
     deliver cf sblk m = (sblk, Err EBlocked).
   Proof. vm_compute. repeat split. Qed.
+  (** the transaction seeded change C16-L lets through: signed by bob only; bob's own create first, then
+      a ChangeAdmin in ALICE's name.  The decorator refuses it (alice neither signed nor granted); the
+      handlers alone would hand alice's denom to bob; with a fee grant alice -> bob it is delivered. *)
+  Definition s17 : xstate := Chain.xrun cf name "gov" (firstn 17 ops ++ [XParams "gov" "gov" [] true]) x0.
+  Definition evil : list tmsg :=
+    [ (MCreate "bob" "mine", ["bob"]); (MChangeAdmin "alice" dc "bob", ["bob"]) ].
+  Example tx_ante_needed :
+    admin_rec (st s17) dc = Some "alice" /\
+    deliver_tx cf name "gov" s17 [] evil = (s17, Err EAnte) /\
+    (exists x', run_msgs cf name "gov" s17 evil = Ok x' /\ admin_rec (st x') dc = Some "bob") /\
+    (exists x', deliver_tx cf name "gov" s17 [(1, 2)] evil = (x', Ok "") /\ admin_rec (st x') dc = Some "bob") /\
+    ante_msg cf name [] (MCreate "bob" "mine", ["bob"]) = true.
+  Proof.
+    split; [vm_compute; reflexivity|]. split; [vm_compute; reflexivity|].
+    split; [eexists; split; vm_compute; reflexivity|].
+    split; [eexists; split; vm_compute; reflexivity|vm_compute; reflexivity].
+  Qed.
 End XEx.
